@@ -1,12 +1,13 @@
 #!/bin/bash
 # try_patch.sh <patch file> <props,comma>  -- run checks against a scratch copy of /repo with the patch applied
 set -u
+ROOT=$(cd "$(dirname "$(readlink -f "$0")")/.." && pwd)
 pf=$(readlink -f $1); props=$2
 d=$(mktemp -d /tmp/tp_XXXX)
 rsync -a --exclude target --exclude .git /repo/ $d/ && (cd $d && patch -p1 -s < $pf) || { echo "PATCH FAILED"; rm -rf $d; exit 3; }
 res=""
 for p in ${props//,/ }; do
-  out=$(cd /verif && VERIF_REPO=$d ./check $p 2>&1); rc=$?
+  out=$(cd $ROOT && VERIF_REPO=$d ./check $p 2>&1); rc=$?
   echo "$out" | grep -E "VIOLATION|FAILED-OBLIGATION|UNDECIDED|^OK|error" | grep -v KNOWN | cut -c1-260 | head -8
   res="$res $p:rc=$rc"
 done
